@@ -15,7 +15,9 @@ import (
 //  2. the self-validation catalogue for this property: every seeded change that
 //     breaks the property (seeded/<id>, written by sub-agents that saw only the
 //     property text) must be reported by this check, and every neutral variant
-//     (selftest/neutral, behaviour-preserving refactorings) must leave it silent.
+//     (selftest/neutral, behaviour-preserving refactorings) must leave it silent;
+//     every "fix:" commit recorded for this property, reverted on a scratch copy,
+//     must be reported again (a fixed entry suppresses nothing).
 //     The outcome is recorded in the evidence; a regression of the machinery
 //     makes the run fail with exit 2 (the check, not the property, is broken).
 func thoroughExtras(id string, pc *propCheck, repo, verif string, r *Report, extra map[string]any) {
@@ -66,14 +68,18 @@ func thoroughExtras(id string, pc *propCheck, repo, verif string, r *Report, ext
 	extra["self_validation"] = sum
 	missed, _ := sum["seeded_missed"].([]any)
 	noisy, _ := sum["neutral_noisy"].([]any)
+	revMissed, _ := sum["reverted_fixes_missed"].([]any)
+	if rv, ok := sum["reverted_fixes"].(float64); ok {
+		r.Stat("thorough.reverted fixes of this property detected", int(rv)-len(revMissed))
+	}
 	if sd, ok := sum["seeded_detected"].(float64); ok {
 		r.Stat("thorough.seeded changes of this property detected", int(sd))
 	}
 	if nv, ok := sum["neutral_variants"].(float64); ok {
 		r.Stat("thorough.neutral variants silent", int(nv)-len(noisy))
 	}
-	if len(missed) > 0 || len(noisy) > 0 {
-		fmt.Fprintf(os.Stderr, "SELF-VALIDATION REGRESSION for %s: missed seeded changes %v, neutral variants with alarms %v\n", id, missed, noisy)
+	if len(missed) > 0 || len(noisy) > 0 || len(revMissed) > 0 {
+		fmt.Fprintf(os.Stderr, "SELF-VALIDATION REGRESSION for %s: missed seeded changes %v, reverted fixes not reported %v, neutral variants with alarms %v\n", id, missed, revMissed, noisy)
 		r.selfRegression = true
 	}
 }
